@@ -550,3 +550,74 @@ Proof.
   - intros v Hv. apply LAT. change (@nil kv) with (lru_abs lru_empty). rewrite <- Habs.
     now rewrite (lru_abs_lookup mx st k Hinv).
 Qed.
+
+(* ================================================================== SimpleCache is the history map *)
+Lemma refines_rel : forall S T O (step : S -> O -> S * out) (spec : T -> O -> T * out) (R : S -> T -> Prop),
+  (forall st t o, R st t -> snd (step st o) = snd (spec t o) /\ R (fst (step st o)) (fst (spec t o))) ->
+  forall ops st t, R st t -> run_ops step st ops = run_ops spec t ops.
+Proof.
+  intros S T O step spec R H ops. induction ops as [|o r IH]; intros st t HR; cbn; auto.
+  destruct (H st t o HR) as [H1 H2]. destruct (step st o) as [st' x]. destruct (spec t o) as [t' y].
+  cbn in *. subst. f_equal. auto.
+Qed.
+
+Lemma live_keys_latest : forall D (hist : list (op D)) k,
+  In k (live_keys hist) <-> exists v, latest k hist = Some v.
+Proof.
+  intros D hist k. induction hist as [|o t IH]; cbn.
+  - split; [tauto | intros [v H]; discriminate].
+  - destruct o as [k' v' d'|k'|k'| |]; cbn; auto.
+    + destruct (existsb (Nat.eqb k') (live_keys t)) eqn:E.
+      * destruct (Nat.eqb k' k) eqn:E2.
+        -- apply Nat.eqb_eq in E2. subst k'. split; [eauto|]. intros _.
+           apply existsb_exists in E. destruct E as [x [Hx Hx2]]. apply Nat.eqb_eq in Hx2. now subst.
+        -- auto.
+      * cbn. destruct (Nat.eqb k' k) eqn:E2.
+        -- apply Nat.eqb_eq in E2. subst. split; eauto.
+        -- apply Nat.eqb_neq in E2. rewrite <- IH. split; [intros [H|H]; [congruence|auto] | auto].
+    + split; [tauto | intros [v H]; discriminate].
+Qed.
+
+Definition simple_rel {D} (st : simple) (hist : list (op D)) : Prop :=
+  (forall k, aget k st = latest k hist) /\ length st = length (live_keys hist).
+
+Lemma simple_step_rel : forall D (st : simple) (hist : list (op D)) o, simple_rel st hist ->
+  snd (simple_step st o) = snd (simple_spec_step hist o)
+  /\ simple_rel (fst (simple_step st o)) (fst (simple_spec_step hist o)).
+Proof.
+  intros D st hist o [HG HL]. destruct o as [k v d|k|k| |]; cbn.
+  - split; auto. split.
+    + intros k'. cbn [latest]. destruct (Nat.eqb k k') eqn:E.
+      * apply Nat.eqb_eq in E. subst. apply aget_aset_same.
+      * apply Nat.eqb_neq in E. rewrite aget_aset_other; auto.
+    + cbn [live_keys]. rewrite <- (length_keys (aset k v st)), keys_aset.
+      assert (EQ : existsb (Nat.eqb k) (live_keys hist) = amem k st).
+      { unfold amem. rewrite HG. destruct (latest k hist) eqn:E.
+        - apply existsb_exists. exists k. rewrite Nat.eqb_refl. split; auto. apply live_keys_latest. eauto.
+        - destruct (existsb (Nat.eqb k) (live_keys hist)) eqn:E2; auto.
+          apply existsb_exists in E2. destruct E2 as [x [Hx Hx2]]. apply Nat.eqb_eq in Hx2. subst x.
+          apply live_keys_latest in Hx. destruct Hx as [v0 Hv0]. congruence. }
+      rewrite EQ. destruct (amem k st); cbn; rewrite ?app_length, length_keys; cbn; lia.
+  - rewrite HG. split; [destruct (latest k hist); auto | split; auto].
+  - unfold amem. rewrite HG. split; [destruct (latest k hist); auto | split; auto].
+  - rewrite HL. split; [auto | split; auto].
+  - split; auto. split; auto.
+Qed.
+
+(* simple_is_map: SimpleCache answers every operation of every sequence like the unbounded map given by
+   the history (get = value of the latest put since the last clear, in = such a put exists,
+   len = number of distinct keys put since the last clear) and never raises *)
+Theorem simple_is_map : forall D (ops : list (op D)),
+  run_ops simple_step [] ops = run_ops simple_spec_step [] ops.
+Proof.
+  intros D ops. apply refines_rel with (R := simple_rel).
+  - intros. now apply simple_step_rel.
+  - split; auto.
+Qed.
+
+Theorem simple_no_raise : forall D (ops : list (op D)),
+  forallb (fun r => negb (is_raised r)) (run_ops simple_step [] ops) = true.
+Proof.
+  intros D ops. apply run_ops_no_raise_gen with (I := fun _ => True); auto.
+  intros st o _. split; auto. destruct o; cbn; auto. destruct (aget k st); auto.
+Qed.
